@@ -282,7 +282,18 @@ class Aggregate(list):
                 return accum
 
             is_listmember = attrname in listaggregates or attrname in listelements
-            if index <= prev_index and not (is_listmember and prev_is_listmember):
+            #  List members may interleave only with members of the same run, i.e.
+            #  list attributes adjacent to each other in the spec (disregarding
+            #  Unsupported) - cf. ``to_etree()``.
+            same_run = (
+                is_listmember
+                and prev_is_listmember
+                and all(
+                    a in listaggregates or a in listelements or a in cls.unsupported
+                    for a in spec[index : prev_index + 1]
+                )
+            )
+            if index <= prev_index and not same_run:
                 msg = (
                     f"Elements out of order: According to the class spec for {clsnm}, "
                     f"{attrname.upper()} should occur before "
